@@ -363,6 +363,11 @@ class C11(Property):
                           "domains": doms, "motifs": motifs})
         if rng.random() < 0.1:
             genes.append({"name": f"gene{ngenes}", "strand": 1, "domains": [], "motifs": []})
+        if rng.random() < 0.6:
+            # gene names that do not sort in their order along the record (nrpsB before nrpsA, …)
+            pool = ["nrpsB", "nrpsA", "pksZ", "Pks1", "orf10", "orf9", "a_last", "M3", "zeta", "alpha"]
+            for gene, name in zip(genes, rng.sample(pool, len(genes))):
+                gene["name"] = name
         mut = None
         if rng.random() < self.MUT_RATE:
             mut = rng.choice(["schema:3", "schema:5", "schema:none", "schema:missing", "record_id", "unknown_cds",
@@ -932,6 +937,10 @@ class C11(Property):
         self.cycle(obs, j_in, regen, lambda y: y.to_json())
         if obs.get("outcome") == "reuse":
             obs["domain_ids"] = [d.domain_id for d in records[0].get_antismash_domains()]
+            # the order in which the original run added its domain and motif features
+            obs["feature_order_equal"] = (
+                [d.domain_id for d in rec_a.get_antismash_domains()] == obs["domain_ids"]
+                and [m.domain_id for m in rec_a.get_cds_motifs()] == [m.domain_id for m in records[0].get_cds_motifs()])
             try:
                 obs["_obj"].add_to_record(records[0])
                 obs["features_equal"] = feature_obs(records[0]) == feature_obs(rec_a)
@@ -2030,6 +2039,9 @@ class C11(Property):
                 spec_ok = False
                 detail = detail or ("regenerated results add different features: "
                                     + obs.get("feature_diff", obs.get("feature_error", "")))
+            if obs.get("feature_order_equal") is False and not mutated:
+                spec_ok = False
+                detail = detail or "the regenerated results add the domain features in another order than the original run"
             if obs.get("annotations_as_original") is False and not mutated:
                 spec_ok = False
                 detail = detail or ("the regenerated results put other gene annotations on the record than the original "
